@@ -348,12 +348,30 @@ def families_of(spec):
                     if env_json is None or env_cls is None:
                         out[(i, direction)] = {"error": "no envelope"}
                         continue
+                    pns = [None, ENV]
+                    for x in (spec["xns"], spec["tns"], op.get("body_ns")):
+                        if x and x not in pns:
+                            pns.append(x)
                     try:
-                        fam = WB.Family(env_cls, env_id, [None, ENV]).export()
+                        family = WB.Family(env_cls, env_id, pns)
+                        fam = family.export()
                         types = WB.type_infos(g, env_json, spec)
-                        out[(i, direction)] = {"env": env_json, "types": types, "real": fam}
+                        rec = {"env": env_json, "types": types, "real": fam, "pns": pns}
+                        out[(i, direction)] = rec
                     except Exception as e:  # noqa: BLE001
                         out[(i, direction)] = {"error": f"{type(e).__name__}: {e}"}
+                        continue
+                    # a fully populated instance, its canonical value and the names of the document the real
+                    # serializer writes for it
+                    try:
+                        from xsdata.formats.dataclass.serializers import XmlSerializer
+
+                        inst = fill(env_cls, Counter())
+                        rec["payload"] = family.export_payload()
+                        rec["value"] = family.to_val(inst)
+                        rec["shape"] = WB.xml_names(XmlSerializer().render(inst))
+                    except Exception as e:  # noqa: BLE001
+                        rec["value_error"] = f"{type(e).__name__}: {e}"
     finally:
         g.close()
     if len(_FAMILY_CACHE) > 400:
@@ -371,7 +389,7 @@ def gen_envmeta(rng, tier):
         for k, v in fams.items():
             if k == "error" or "error" in v:
                 continue
-            yield {"spec": spec, "op": k[0], "dir": k[1], "env": v["env"], "types": v["types"], "pns": [None, ENV]}
+            yield {"spec": spec, "op": k[0], "dir": k[1], "env": v["env"], "types": v["types"], "pns": v["pns"]}
 
 
 def impl_envmeta(a):
@@ -383,6 +401,48 @@ def impl_envmeta(a):
         # simple types / enumerations / missing types: copy_attribute_properties etc. are not in this model
         return err("unsupported")
     return ok(v["real"])
+
+
+def gen_reqshape(rng, tier):
+    import wsdlbind as WB
+
+    specs = [s for s in hand_specs() if in_fragment(s)]
+    for _ in range(n_cases(tier, 45, 700)):
+        specs.append(G.gen_spec(rng, nops=rng.choice([1, 2, 3])))
+    dts = WB.datatypes()
+    for spec in specs:
+        fams = families_of(spec)
+        for k, v in fams.items():
+            if k == "error" or "error" in v or "value" not in v:
+                continue
+            yield {"spec": spec, "op": k[0], "dir": k[1], "env": v["env"], "types": v["types"], "pns": v["pns"],
+                   "payload": v["payload"], "datatypes": dts, "value": v["value"]}
+
+
+def impl_reqshape(a):
+    fams = families_of(a["spec"])
+    v = fams.get((a["op"], a["dir"]))
+    if v is None or "shape" not in v:
+        return err("HARNESS:" + str((v or {}).get("value_error") or (v or {}).get("error")))
+    if any(t["kind"] != "complex" for t in a["types"]):
+        return err("unsupported")
+    return ok({"shape": v["shape"]})
+
+
+def canon_reqshape(o):
+    # the hypotheses' truth value and the parse-back flag are reported in the distribution, the names are compared
+    if isinstance(o, dict) and "ok" in o:
+        return {"ok": {"shape": o["ok"]["shape"]}}
+    return o
+
+
+def compare_reqshape(m, i, a):
+    if "ok" in i and "ok" in m:
+        # where the theorem's hypotheses hold the model must also parse its own document back
+        if m["ok"]["f1"] and not m["ok"]["parsed_back"]:
+            return False
+        return m["ok"]["shape"] == i["ok"]["shape"]
+    return m == i
 
 
 def classify_envmeta(a, o):
@@ -1358,6 +1418,9 @@ CORRS = [
          describe="hypothesis of generation_succeeds (wfDefinitions) vs success of the real mapper: wf implies success"),
     Corr("wsdl.envmeta", gen_envmeta, impl_envmeta, classify=classify_envmeta,
          describe="envelope class family (Envelope/Header/Body/Fault/detail) as XmlMeta: mapper class + model of rendering/XmlMetaBuilder vs the real generated classes built by XmlContext"),
+    Corr("wsdl.reqshape", gen_reqshape, impl_reqshape, compare=compare_reqshape,
+         classify=lambda a, o: ("err:" + o["err"]) if "err" in o else G.effective_style(a["spec"], a["spec"]["ops"][a["op"]]) + "+" + a["dir"],
+         describe="theorem request_document_shape on the real code: element names (full depth) of the document the real XmlSerializer writes for a fully populated envelope instance vs generate+abstract writer on envelopeCtx(model family + real payload classes)"),
     Corr("wsdl.config", gen_config, impl_config,
          classify=lambda a, o: "style@" + "".join(l[0] for l in ("binding", "port", "operation") if any(k.split("}")[-1] == "style" for e in a[l] for k, _ in e["attrs"])) or "style@none",
          describe="attributes()/config precedence, service constants, operation_namespace"),
